@@ -801,3 +801,83 @@ pub fn replay_case<T: DeserializeOwned>(
     let mut st = Stats::new(0);
     guard(|| check(&case, &mut st))
 }
+
+/// A finite stream of generator-provided choices, interpreted procedurally (so that dependent
+/// generation stays simple while proptest still owns every random decision and can shrink it:
+/// fewer / smaller choices mean a simpler case; an exhausted stream yields 0 = the simplest choice).
+#[derive(Clone, Debug)]
+pub struct Choices {
+    data: Vec<u16>,
+    pos: usize,
+}
+
+impl Choices {
+    /// Wraps raw choices.
+    pub fn new(data: Vec<u16>) -> Self {
+        Self { data, pos: 0 }
+    }
+    /// Strategy for a stream of up to `max` choices.
+    pub fn strategy(max: usize) -> impl Strategy<Value = Choices> {
+        proptest::collection::vec(proptest::num::u16::ANY, 0..=max).prop_map(Choices::new)
+    }
+    /// Next raw choice.
+    pub fn raw(&mut self) -> u16 {
+        let v = self.data.get(self.pos).copied().unwrap_or(0);
+        self.pos += 1;
+        v
+    }
+    /// Uniform in `0..n` (monotone in the raw choice).
+    pub fn below(&mut self, n: usize) -> usize {
+        if n <= 1 {
+            self.raw();
+            return 0;
+        }
+        pick_index(self.raw(), n)
+    }
+    /// Uniform in `lo..=hi`.
+    pub fn range(&mut self, lo: u64, hi: u64) -> u64 {
+        lo + self.below((hi - lo + 1) as usize) as u64
+    }
+    /// True with probability `num/den`; false is the simple choice.
+    pub fn chance(&mut self, num: usize, den: usize) -> bool {
+        let r = self.below(den);
+        r >= den - num
+    }
+    /// Fair coin.
+    pub fn bool(&mut self) -> bool {
+        self.chance(1, 2)
+    }
+    /// Picks by weight; the first alternative is the simplest.
+    pub fn weighted<T: Clone>(&mut self, alts: &[(usize, T)]) -> T {
+        let total: usize = alts.iter().map(|a| a.0).sum();
+        let mut r = self.below(total);
+        for (w, t) in alts {
+            if r < *w {
+                return t.clone();
+            }
+            r -= w;
+        }
+        alts.last().unwrap().1.clone()
+    }
+    /// Picks one element.
+    pub fn pick<T: Clone>(&mut self, alts: &[T]) -> T {
+        alts[self.below(alts.len())].clone()
+    }
+    /// A full u64 from four raw choices.
+    pub fn u64(&mut self) -> u64 {
+        (0..4).fold(0u64, |a, _| (a << 16) | self.raw() as u64)
+    }
+    /// Random subset of `0..n` as a boolean mask.
+    pub fn mask(&mut self, n: usize) -> Vec<bool> {
+        (0..n).map(|_| self.bool()).collect()
+    }
+    /// A permutation of `0..n`.
+    pub fn perm(&mut self, n: usize) -> Vec<usize> {
+        let mut v: Vec<usize> = (0..n).collect();
+        for i in 0..n {
+            let j = i + self.below(n - i);
+            v.swap(i, j);
+        }
+        v
+    }
+}
